@@ -11,7 +11,7 @@ import tempfile
 PNG = (b"\x89PNG\r\n\x1a\n\x00\x00\x00\rIHDR\x00\x00\x00\x02\x00\x00\x00\x02\x08\x02\x00\x00\x00\xfd\xd4\x9as"
        b"\x00\x00\x00\x0cIDATx\x9cc\xf8\xcf\xc0\x00\x00\x03\x01\x01\x00\xc9\xfe\x92\xef\x00\x00\x00\x00IEND\xaeB`\x82")
 
-TARGETS = ["plain", "coloured", "multi", "figure", "grouped", "paged", "shared"]
+TARGETS = ["plain", "coloured", "multi", "figure", "grouped", "paged", "shared", "font95"]
 
 
 def build(kind, shared=None, figdir=None):
@@ -60,6 +60,12 @@ def build(kind, shared=None, figdir=None):
                                rtf_column_header=[[sh("header", lambda: rtf.RTFColumnHeader())], [None]],
                                rtf_footnote=sh("footnote", lambda: rtf.RTFFootnote(text="note")),
                                rtf_subline=sh("subline", lambda: rtf.RTFSubline(text="sub")))
+    if kind in ("font9", "font95"):
+        # cells whose wrapping depends on the exact font size: 9 pt vs 9.5 pt, several pages
+        wide = pl.DataFrame({"a": ["The quick brown fox jumps over the lazy dog and keeps on running %d" % i for i in range(10)],
+                             "b": ["x"] * 10})
+        return rtf.RTFDocument(df=wide, rtf_body=rtf.RTFBody(text_font_size=9 if kind == "font9" else 9.5, col_rel_width=[1, 1]),
+                               rtf_column_header=[rtf.RTFColumnHeader(text=["A", "B"])], rtf_page=rtf.RTFPage(nrow=12))
     if kind == "failing":
         bad = pl.DataFrame({"g": ["A", "B", "A"], "x": ["1", "2", "3"]})
         return rtf.RTFDocument(df=bad, rtf_body=rtf.RTFBody(group_by=["g"], text_color="purple"))
@@ -75,7 +81,7 @@ def baseline(kind, figdir):
 
 
 OPS = ["construct", "encode", "encode_twice", "encode_fail"]
-HISTORY_DOCS = ["plain", "coloured", "multi", "figure", "grouped", "paged", "shared3"]
+HISTORY_DOCS = ["plain", "coloured", "multi", "figure", "grouped", "paged", "shared3", "font9"]
 
 
 def apply(op, kind, shared, figdir):
